@@ -33,7 +33,7 @@ E1 = {
         'quick': ['prims::c12_tlf', 'prims::c12_u8', 'prims::c12_u16', 'prims::c12_u32', 'prims::c12_u64', 'prims::c12_i8', 'prims::c12_i16', 'prims::c12_i32', 'prims::c12_i64', 'prims::c12_bool', 'prims::c12_octets'],
     },
     'C14': {
-        'quick': [D + h for h in tags('c14_step4')] + [D + 'c14_look_crc4', D + 'c14_done4', D + 'fin_reset4'],
+        'quick': [D + h for h in tags('c14_step4')] + [D + 'c14_look_crc4', D + 'c14_done4', D + 'fin_reset4', D + 'c14_from_buf4'],
     },
     'C15': {
         'quick': ['reader::' + h for h in tags('c15_read4')],
@@ -217,11 +217,12 @@ def e2_checks(pid, tier, seed):
         f1 = list(g.transport_encode(bytes([0x12, 0x34, 0x56, 0x78])))
         f2 = list(g.transport_encode(bytes([0x00, 0x1b])))
         for F in ((2, 3) if q else (2, 4, 5)):
-            out.append(spec('faults_F%d_twoframes' % F, 'chk_faults', [F] + S(F) + f1 + f2, 'two concrete frames; the first %d read() calls follow a symbolic script over {byte, WouldBlock, Interrupted, Other, end-of-input}' % F, must_cover=[11]))
+            out.append(spec('faults_F%d_twoframes' % F, 'chk_faults', [F] + S(F) + f1 + f2, 'two concrete frames; the first %d read() calls follow a symbolic script over {byte, WouldBlock, Interrupted, Other, TimedOut, BrokenPipe, InvalidData, end-of-input}' % F, must_cover=[11]))
         # faults in the middle of a frame: script = k concrete 'deliver' entries then symbolic entries
-        for k in ((3, 9, 13, 19) if q else (1, 3, 5, 8, 9, 11, 13, 15, 17, 19, 20)):
+        f3 = list(g.transport_encode(bytes([0x76, 0x01, 0x02])))
+        for k in ((3, 9, 13, 19, 31, 32, 33, 64) if q else (1, 3, 5, 8, 9, 11, 13, 15, 16, 17, 19, 20, 31, 32, 33, 48, 63, 64, 65)):
             F = 2 if q else 3
-            out.append(spec('faults_at%d' % k, 'chk_faults', [k + F] + [0] * k + S(F) + f1 + f2, 'two concrete frames; after %d delivered bytes, %d symbolic script entries' % (k, F), must_cover=[11]))
+            out.append(spec('faults_at%d' % k, 'chk_faults', [k + F] + [0] * k + S(F) + f1 + f2 + f3 + f1, 'four concrete frames (80 bytes); after %d delivered bytes, %d symbolic script entries over {byte, WouldBlock, Interrupted, Other, TimedOut, BrokenPipe, InvalidData, end-of-input}' % (k, F), must_cover=[11]))
         out.append(spec('faults_noise', 'chk_faults', [3] + S(3) + S(2) + f1, '3 symbolic script entries over 2 symbolic noise bytes + a frame', must_cover=[11]))
     elif pid == 'C10':
         g = _lib()
@@ -266,6 +267,17 @@ def _parser_checks(pid, tier, seed):
             out.append(spec('%s_close_tail%d' % (g, kk), 'chk_parse_' + g, pre_close + S(kk), 'close-message envelope then %d symbolic bytes' % kk))
             out.append(spec('%s_open_tail%d' % (g, kk), 'chk_parse_' + g, pre_open + S(kk), 'open-message envelope then %d symbolic bytes' % kk))
             out.append(spec('%s_list_tail%d' % (g, kk), 'chk_parse_' + g, pre_list + S(kk), 'get-list envelope up to the value list, then %d symbolic bytes' % kk, max_seconds=1500))
+            # a close message with symbolic transaction id and the SHORT checksum form `62 xx` (valid when the first checksum byte is 0)
+            out.append(spec('%s_shortcrc' % g, 'chk_parse_' + g, [0x76, 0x03] + S(2) + [0x62, 0x00, 0x62, 0x00, 0x72, 0x63, 0x02, 0x01, 0x71, 0x01, 0x62] + S(1) + [0x00], 'close message, 2 symbolic transaction-id bytes, checksum field in the 1-byte form 62 xx (symbolic)'))
+            out.append(spec('%s_shortcrc2' % g, 'chk_parse_' + g, [0x76, 0x03] + S(2) + [0x62, 0x00, 0x62, 0x00, 0x72, 0x63, 0x02, 0x01, 0x71, 0x01, 0x62] + S(1) + [0x00] + [0x76, 0x03] + S(2) + [0x62, 0x00, 0x62, 0x00, 0x72, 0x63, 0x02, 0x01, 0x71, 0x01, 0x63] + S(2) + [0x00], 'two close messages, first with the short checksum form, second with the normal one, ids and checksums symbolic'))
+            # message-body choice tag with a fully symbolic 5-byte encoding, checksum symbolic (recomputed by the solver)
+            out.append(spec('%s_tagsym' % g, 'chk_parse_' + g, [0x76, 0x02, 0x11, 0x62, 0x00, 0x62, 0x00, 0x72] + S(5) + [0x71, 0x01, 0x63] + S(2) + [0x00], 'close message whose choice tag is 5 symbolic bytes (TL byte + up to 4 value bytes), checksum symbolic'))
+            out.append(spec('%s_tagsym_list' % g, 'chk_parse_' + g, [0x76, 0x02, 0x11, 0x62, 0x00, 0x62, 0x00, 0x72, 0x65] + S(4) + [0x77, 0x01, 0x02, 0x0a, 0x01, 0x01, 0x70, 0x01, 0x01, 0x63] + S(2) + [0x00], 'message whose 4-byte choice tag value is symbolic, followed by a get-list body with an empty list, checksum symbolic'))
+            # declared list length: 9-byte TLF with 36 symbolic length bits (incl. 2^32-2 / 2^32-1)
+            gl = _lib().library()['list1']; fbl = list(gl.b)
+            lp = [i for i in range(len(fbl)) if fbl[i] == 0x71 and i > 15][0]
+            nib9 = [('nib', 0xF)] + [('nib', 0x8)] * 7 + [('nib', 0x0)]
+            out.append(spec('%s_listlen36' % g, 'chk_parse_' + g, fbl[:lp] + nib9 + fbl[lp + 1:], 'get-list file whose list TL byte is replaced by a 9-byte TLF with 36 symbolic length bits'))
             names = SMALL_FILES if q else None
             out += file_specs('chk_mut_' + g, g, tier, seed, [1, 2, 3, 4], names=names)
             if not q:
@@ -319,6 +331,15 @@ def len_attack_specs(tier):
         cells = fb[:pos] + nib9(hi) + fb[pos + 1:]
         out.append(spec('c06_len36_p%d' % pos, 'chk_parse_c06', cells, 'TL byte at offset %d replaced by a 9-byte TLF of the same type whose 36 length bits are symbolic (all declared lengths 0 .. 2^36-1)' % pos, max_seconds=900))
         out.append(spec('c06_noalloc_len36_p%d' % pos, 'chk_stream_noalloc', cells, 'streaming parser, same 9-byte TLF with 36 symbolic length bits at offset %d' % pos, max_seconds=900))
+    # type-length fields spanning hundreds of bytes (own-size counters)
+    for L in ((254, 255, 256, 300) if q else (127, 128, 254, 255, 256, 257, 300, 511, 512, 70000)):
+        tail = [0x62, 0x00, 0x62, 0x00, 0x72, 0x63, 0x02, 0x01, 0x71, 0x01, 0x63, 0x00, 0x00, 0x00]
+        out.append(spec('c06_tlf_long_list_%d' % L, 'chk_parse_c06', [0xF0] + [0x80] * L + [('nib', 0x0)] + [0x01] + tail, 'message whose list TLF is continued over %d zero-nibble bytes, last nibble symbolic' % L, max_steps=30000000))
+        out.append(spec('c06_tlf_long_str_%d' % L, 'chk_stream_noalloc', [0x76, 0x80] + [0x80] * L + [('nib', 0x0)] + tail, 'transaction-id TLF continued over %d zero-nibble bytes (streaming parser)' % L, max_steps=30000000))
+    # declared count far beyond 17 GENUINE entries (a reservation made after the list "turned out genuine")
+    b17 = lib['list17']; f17 = list(b17.b)
+    lp = [i for i in range(len(f17) - 1) if f17[i] == 0xF1 and f17[i + 1] == 0x01][0]
+    out.append(spec('c06_len36_list17', 'chk_parse_c06', f17[:lp] + nib9(0xF) + f17[lp + 2:], 'file with 17 genuine list entries whose 2-byte list TLF is replaced by a 9-byte TLF with 36 symbolic length bits', max_seconds=900))
     if not q:
         for pos in tl_positions[1:2]:
             cells = fb[:pos] + S(9) + fb[pos + 1:]
